@@ -91,10 +91,18 @@ def gen_tree_node(rng: Rng, cfg, depth_left, q, must_branch=False):
     for _ in range(nchild):
         for _try in range(6):
             o = rng.randrange(0, K + 1)
+            c = rng.pick(COEFFS)
+            if children and rng.chance(0.3):
+                # sibling with the same operator and a nearly equal (or equally tiny) coefficient but its own subtree
+                o = children[-1]['oid']
+                c = children[-1]['coeff'] * rng.pick([1.0 + 2.0 ** -24, 1.0 - 2.0 ** -25, 1.0, 3.0])
+                if rng.chance(0.3):
+                    children[-1]['coeff'] = 2.0 ** -30
+                    c = 3 * 2.0 ** -30
             q2 = q + ch[o]
             sub = gen_tree_node(rng, cfg, depth_left - 1, q2)
             if sub is not None:
-                children.append({'oid': o, 'coeff': rng.pick(COEFFS), 'node': sub})
+                children.append({'oid': o, 'coeff': c, 'node': sub})
                 break
     if not children:
         return None
@@ -149,6 +157,7 @@ def gen_automaton(rng: Rng, cfg):
             for _i in range(L):
                 tab.append(mk_opics(a, b))
             e['opics_table'] = tab
+            e['opics_buf'] = rng.chance(0.4)
         else:
             e['opics'] = op0
         r = rng.random()
@@ -275,7 +284,7 @@ def gen_session(prop: str, tier: str, seed: int) -> dict:
         qd = [0] * d
     while d ** L > 243 and L > 1:
         L -= 1
-    cfg = {'world': 'gr', 'profile': profile, 'tier': tier, 'L': L, 'K': K, 'charges': ch, 'd': d, 'qd': qd, 'enabled': ['CBCALLS'], 'faultfree': True,
+    cfg = {'world': 'gr', 'profile': profile, 'tier': tier, 'L': L, 'K': K, 'charges': ch, 'd': d, 'qd': qd, 'enabled': ['CBCALLS', 'CBBUF'], 'faultfree': True,
            'opmap_seed': rng.sub()}
     nops = rng.randrange(3, 13) if tier == 'quick' else rng.randrange(4, 25)
     ops = []
@@ -295,7 +304,12 @@ def gen_session(prop: str, tier: str, seed: int) -> dict:
 def gen_op(rng: Rng, cfg, kind: str) -> dict:
     s = rng.sub
     if kind == 'from_opchains':
-        return {'op': 'from_opchains', 'chains': gen_chain_list(rng, cfg)}
+        op = {'op': 'from_opchains', 'chains': gen_chain_list(rng, cfg)}
+        if rng.chance(0.3):
+            # history: the caller reuses the chain objects of an earlier call after updating them in place
+            op['reuse'] = s()
+            op['mutate'] = {'which': s(), 'coeff': rng.pick(COEFFS + [0.0, 0.0, 0.0]), 'oid': rng.randrange(0, cfg['K'] + 1), 'pos': s(), 'what': rng.pick(['coeff', 'coeff', 'oid'])}
+        return op
     if kind == 'from_optrees':
         return {'op': 'from_optrees', 'trees': gen_tree_list(rng, cfg)}
     if kind == 'from_automaton':
